@@ -1,0 +1,36 @@
+//go:build verif
+
+package ecs
+
+// Contracts for archetype.go.
+//
+// tableIDs: a list of table IDs with an inverse map, used as a duplicate-free set.
+
+//@ pred tidsInv(t *tableIDs) :=
+//@      t.indices != nil && uint64(len(t.tables)) < 1<<32
+//@   && (forall k uint32 :: uint64(k) < uint64(len(t.tables)) ==>
+//@         __has(t.indices, t.tables[k]) && t.indices[t.tables[k]] == k)
+//@   && (forall id tableID :: __has(t.indices, id) ==>
+//@         uint64(t.indices[id]) < uint64(len(t.tables)) && t.tables[t.indices[id]] == id)
+
+//@ spec func tidsHas(t *tableIDs, id tableID) bool := __has(t.indices, id)
+
+//@ func (*tableIDs).Append
+//@   serves C04 C05 C03
+//@   requires tidsInv(t) && !tidsHas(t, id) && uint64(len(t.tables)) < 1<<32 - 1
+//@   ensures  inv: tidsInv(t)
+//@   ensures  added: forall j tableID :: tidsHas(t, j) == (old(tidsHas(t, j)) || j == id)
+//@   ensures  last: len(t.tables) == old(len(t.tables)) + 1 && t.tables[len(t.tables)-1] == id
+
+//@ func (*tableIDs).Remove
+//@   serves C04 C05 C03
+//@   requires tidsInv(t)
+//@   ensures  inv: tidsInv(t)
+//@   ensures  found: result == old(tidsHas(t, id))
+//@   ensures  removed: forall j tableID :: tidsHas(t, j) == (old(tidsHas(t, j)) && j != id)
+//@   ensures  count: (result ==> len(t.tables) == old(len(t.tables)) - 1) && (!result ==> len(t.tables) == old(len(t.tables)))
+
+//@ func (*tableIDs).Clear
+//@   serves C04 C05 C16
+//@   ensures  inv: tidsInv(t)
+//@   ensures  empty: len(t.tables) == 0 && (forall j tableID :: !tidsHas(t, j))
